@@ -273,7 +273,8 @@ def panics(ctx, typestate_ok):
             ctx.ob("R03.2", "site|" + full_key, True, "ASSUMED, not proved: %s" % asm[0], s.loc)
             continue
         ctx.fail("R03.2", "site|" + full_key, "cannot prove that this cannot panic: %s (%s; %d path(s))" % (s.desc, why or "obligation not entailed", npaths), s.loc)
-    ctx.ob("R03.2", "inventory|floor", n_sites >= 40, "%d panic-capable sites enumerated in %d functions (floor 40): %d proved, %d environment, %d assumed" % (n_sites, nfn, n_ok, n_env, n_assumed))
+    floor = 40 if facts.raw.get("overflow_checks") else 30
+    ctx.ob("R03.2", "inventory|floor", n_sites >= floor, "%d panic-capable sites enumerated in %d functions (floor %d for this profile): %d proved, %d environment, %d assumed" % (n_sites, nfn, floor, n_ok, n_env, n_assumed))
     ctx.ob("R03.2", "assumed|at-most-one", n_assumed <= 1, "%d site(s) assumed rather than proved (at most the one named in DESIGN.md)" % n_assumed)
     # callee classification
     try:
